@@ -1,7 +1,8 @@
 # props_core.py -- the properties decided on the actor-core engine
 import os, re
 from common import *
-from checkbase import Check
+from checkbase import Check, first_diff, get
+import subprocess
 import gen_core as GC
 
 CORE_SRCS = ('core/ctx.c', 'core/evts.c', 'core/main.c', 'core/mod.c', 'core/ps.c', 'core/src.c', 'core/fs/fs_noop.c',
@@ -354,6 +355,81 @@ class C14(CoreProp):
     def monitors(self, case, ctr): return mon_foreign(case, ctr)
     def nontrivial(self, case, ctr):
         return ctr is not None and any(c.startswith('fret:') and c[5:].split()[0] in MOD_OPS for c, _ in categorize(ctr))
+    # ---- first clause: independent contexts.  T1: the inventory of writable library state is regenerated (coq/Globals.v) ...
+    def regen(self):
+        import globals_scan
+        ok, msg, syms = globals_scan.generate()
+        if ok: self._globals = [s[0] for s in syms]
+        return ok, ('inventory of writable globals cannot be regenerated: ' + msg) if not ok else ''
+    # ... and several contexts really run concurrently under ThreadSanitizer, each compared with the same program run alone
+    def mt_configs(self, tier, seed, proof_ok):
+        nseeds = (3 if tier == 'quick' else 60) * (1 if proof_ok else 8)
+        return [(n, seed * 1000 + k, r) for k in range(nseeds) for (n, r) in ((2, 40), (4, 40), (8, 25), (16, 12))]
+    def run_mt(self, exe, n, sd, rounds, solo=None):
+        env = dict(os.environ, TSAN_OPTIONS='halt_on_error=0 exitcode=66 second_deadlock_stack=1')
+        cmd = [exe, str(n), str(sd), str(rounds)] + ([str(solo)] if solo is not None else [])
+        try:
+            r = subprocess.run(cmd, stdout=subprocess.PIPE, stderr=subprocess.PIPE, text=True, env=env, timeout=120)
+            return r.returncode, r.stdout, r.stderr
+        except subprocess.TimeoutExpired as e:
+            return 'timeout', (e.stdout or b'').decode(errors='replace') if isinstance(e.stdout, bytes) else (e.stdout or ''), ''
+    @staticmethod
+    def mt_blocks(out):
+        """-> {thread: {group: [lines]}}: the order of the lines of one module is part of the observation, the interleaving of modules is not"""
+        res = {}; cur = None
+        for l in out.splitlines():
+            t = l.split()
+            if len(t) == 3 and t[0] == 'T' and t[2] == 'begin': cur = res.setdefault(int(t[1]), {})
+            elif len(t) == 3 and t[0] == 'T' and t[2] == 'end': cur = None
+            elif cur is not None and t: cur.setdefault(t[0], []).append(l)
+        return res
+    def mt_judge(self, exe, cfg):
+        n, sd, rounds = cfg
+        rc, out, err = self.run_mt(exe, n, sd, rounds)
+        if rc == 'timeout': return ('%d concurrent contexts did not terminate within 120 s' % n, out[-2000:])
+        if 'ThreadSanitizer' in err:
+            rep = err[err.find('WARNING: ThreadSanitizer'):][:6000]
+            first = [l for l in rep.splitlines() if l.startswith('SUMMARY')][:1]
+            return ('unsynchronised access to shared library state while %d contexts run concurrently: %s' % (n, first[0] if first else 'ThreadSanitizer report'), rep)
+        if rc != 0: return ('driver exit code %s with %d concurrent contexts' % (rc, n), (out + err)[-3000:])
+        conc = self.mt_blocks(out)
+        for k in range(n):
+            rc2, out2, err2 = self.run_mt(exe, n, sd, rounds, solo=k)
+            alone = self.mt_blocks(out2).get(k)
+            if rc2 != 0 or alone is None: return ('program of context %d does not run alone (exit %s)' % (k, rc2), (out2 + err2)[-3000:])
+            if conc.get(k) != alone:
+                g = [x for x in sorted(set(alone) | set(conc.get(k) or {})) if (conc.get(k) or {}).get(x) != alone.get(x)][0]
+                a, b = (conc.get(k) or {}).get(g, []), alone.get(g, [])
+                i = first_diff(a, b)
+                return ('what context %d observes depends on the other contexts: %s line %d is "%s" with %d contexts running and "%s" alone' %
+                        (k, g, i, get(a, i), n, get(b, i)), 'concurrent:\n' + '\n'.join(a[:60]) + '\nalone:\n' + '\n'.join(b[:60]))
+        return None
+    def side_checks(self, tier, seed, ctx, proof_ok):
+        from concurrent.futures import ThreadPoolExecutor
+        exe, msg = build_driver('drv_mt', CORE_SRCS, ('-DLIBMODULE_LOG_CTX=CORE',), ('-lpthread', '-ldl'), cflags=TSAN_CFLAGS)
+        if not exe: return [('mt_build_failure.txt', 'the multi-context harness does not build against the tree', msg)]
+        cfgs = self.mt_configs(tier, seed, proof_ok)
+        with ThreadPoolExecutor(max_workers=4) as ex:
+            results = list(ex.map(lambda c: self.mt_judge(exe, c), cfgs))
+        cov = ctx.setdefault('cov_extra', {})
+        cov['multi_context_runs'] = dict(configs=len(cfgs), contexts_run_concurrently=sum(c[0] for c in cfgs), solo_reruns=sum(c[0] for c in cfgs),
+                                         threads_per_run=sorted({c[0] for c in cfgs}), sanitizer='ThreadSanitizer (gcc -fsanitize=thread) on /repo sources',
+                                         writable_globals_inventory=getattr(self, '_globals', []))
+        for cfg, r in zip(cfgs, results):
+            if r:
+                return [('violation_mt_%d_%d.txt' % (cfg[0], cfg[1]), r[0],
+                         'replay: python3 tools/run.py replay C14 <this file>\nmt %d %d %d\n%s' % (cfg[0], cfg[1], cfg[2], r[1]))]
+        return []
+    def replay(self, path):
+        mt = [l.split() for l in open(path) if l.startswith('# mt ') or l.startswith('mt ')]
+        if not mt: return super().replay(path)
+        t = mt[0][-3:]
+        exe, msg = build_driver('drv_mt', CORE_SRCS, ('-DLIBMODULE_LOG_CTX=CORE',), ('-lpthread', '-ldl'), cflags=TSAN_CFLAGS)
+        if not exe: print(msg); return 1
+        r = self.mt_judge(exe, (int(t[0]), int(t[1]), int(t[2])))
+        print('mt %s: %s' % (' '.join(t), 'ok' if not r else r[0]))
+        if r: print(r[1])
+        return 1 if r else 0
 
 class C15(CoreProp):
     pid = 'C15'; props_file = 'Props_C15'; focus = {'names', 'deny', 'ctx'}
